@@ -36,6 +36,24 @@ class Context:
         return self._cache[key]
 
 
+def run_rules(prop: str, spec, ctx) -> List[Ob]:
+    """All rule functions of a property.  A rule function that gives up on a shape it cannot evaluate (engine
+    exception Inconclusive / CanonError) yields one undecided obligation instead of aborting the whole check: the
+    other rules still report what they can decide."""
+    from .compare import Inconclusive
+    from . import canon as C
+    from .report import inconclusive
+    obs: List[Ob] = []
+    for k, rule_fn in enumerate(spec['rules']):
+        try:
+            obs.extend(rule_fn(ctx))
+        except (Inconclusive, C.CanonError) as e:
+            obs.append(inconclusive(f"R{prop[1:]}.engine", f"rule group {k + 1} of {prop} can be evaluated on this tree",
+                                    ctx.root if hasattr(ctx, 'root') else '', f"{type(e).__name__}: {e}",
+                                    construct=f"{prop}::rule-group-{k + 1}"))
+    return obs
+
+
 def run_check(prop: str, tier: str, root: str, out=sys.stdout) -> int:
     from .props import PROPS
     t0 = time.time()
@@ -46,9 +64,7 @@ def run_check(prop: str, tier: str, root: str, out=sys.stdout) -> int:
     seed = int(os.environ.get('VERIF_SEED', '0') or 0)
     try:
         ctx = Context(root)
-        obs: List[Ob] = []
-        for rule_fn in spec['rules']:
-            obs.extend(rule_fn(ctx))
+        obs: List[Ob] = run_rules(prop, spec, ctx)
         obs = _second_opinion(prop, spec, root, obs, out)
         # anti-vacuity: minimum instance counts per rule
         counts = {}
@@ -150,9 +166,7 @@ def _second_opinion(prop, spec, root, obs: List[Ob], out) -> List[Ob]:
         return obs
     try:
         ctx1 = Context(root, level=1)
-        obs1: List[Ob] = []
-        for rule_fn in spec['rules']:
-            obs1.extend(rule_fn(ctx1))
+        obs1: List[Ob] = run_rules(prop, spec, ctx1)
     except Exception as e:      # the normal form could not be analysed: the first opinion stands
         print(f"{prop}: normal form not analysable ({e!r}); reporting on the source as written", file=out)
         return obs
@@ -206,9 +220,7 @@ def replay(prop: str, path: str, root: str) -> int:
     rec = json.load(open(path))
     from .props import PROPS
     ctx = Context(root)
-    obs: List[Ob] = []
-    for rule_fn in PROPS[prop]['rules']:
-        obs.extend(rule_fn(ctx))
+    obs: List[Ob] = run_rules(prop, PROPS[prop], ctx)
     for o in obs:
         if o.status == 'violation' and o.rule == rec['rule'] and o.key == rec['key']:
             print(f"VIOLATION property={prop} replay={path}")
